@@ -134,7 +134,7 @@ pub fn run(ctx: &Ctx) {
     // at the command line: a sink that fails (/dev/full, closed pipe) must turn into exit status 1 (shared with C12)
     { use super::c12::{Case as C12, Req, FileKind, SenderPos, Sink, wiring_from};
       let mut v = Vec::new();
-      for (i, req) in [Req::KeyEnc, Req::KeyDec(FileKind::Authentic), Req::PassEnc, Req::PassDec(FileKind::Authentic)].into_iter().enumerate() { for sink in [Sink::DevFull, Sink::ClosedPipe] { for len in [1usize, 70_000] { v.push(C12 { req, plain: Plain { len, seed: ctx.seed + i as u64 }, chunks: vec![], pos: SenderPos::First, wirings: vec![wiring_from(0)], sink, sel: ctx.seed, prior_out: None, env_decoy: 0, in_name: 0 }); } } }
+      for (i, req) in [Req::KeyEnc, Req::KeyDec(FileKind::Authentic), Req::PassEnc, Req::PassDec(FileKind::Authentic)].into_iter().enumerate() { for sink in [Sink::DevFull, Sink::ClosedPipe] { for len in [1usize, 70_000] { v.push(C12 { req, plain: Plain { len, seed: ctx.seed + i as u64 }, chunks: vec![], pos: SenderPos::First, wirings: vec![wiring_from(0)], sink, sel: ctx.seed, prior_out: None, env_decoy: 0, in_name: 0, typed: false }); } } }
       ctx.sse_vec("cli_sink_failures", "encrypt / decrypt / password encrypt / password decrypt x {/dev/full, closed pipe} x {1 B, 70 kB}", v, super::c12::check); }
     ctx.pbt("pbt_small", ctx.n(150_000, 1_500_000), || strat(op_strategy().boxed(), false), check);
     ctx.pbt("pbt_64k_chunks", ctx.n(3_000, 60_000), || strat(prop_oneof![Just(Op::KeyEnc), Just(Op::KeyDec)].boxed(), true), check);
